@@ -48,7 +48,7 @@ def canonicalize_url(
         hostname = hostname.lower()
 
     # Dropping HTTP/HTTPS ports
-    if port == 80 or port == 443:
+    if (port == 80 and scheme == "http") or (port == 443 and scheme == "https"):
         port = None
 
     if strip_fragment:
